@@ -10,6 +10,8 @@ func init() {
 			ruleWire(c)
 			ruleLeafDescriptors(c)
 			ruleStructDescriptor(c)
+			ruleDescriptorBodyClosed(c)
+			ruleNoSort(c)
 			ruleFieldName(c)
 			ruleMapDescriptor(c)
 			rulePresenceFlag(c)
